@@ -271,6 +271,15 @@ def observe(case, idx, seed):
     try:
         root, context = build(forest, work, rng)
         before = copy.deepcopy(context) if not hasattr(context, 'open') else None
+        if context is not None and hasattr(context, 'open') and rng.random() < 0.5:
+            # the context file as ONE Context object the caller keeps and uses for two configs: the second config must
+            # see what the first one saw (configs share no mutable values with their context or with each other)
+            from taskchain.config import Context
+            context = Context(filepath=context)
+            try:
+                Config(work / 'data_first', root, context=context).chain()
+            except Exception:  # noqa  (judged on the second build below)
+                pass
         try:
             chain = Config(work / 'data', root, context=context).chain()
             err = None
